@@ -81,6 +81,7 @@ class Result:
     margin: float = 0.0  # largest observed/tolerance ratio among the oracles that held (<= 1)
     skipped: str | None = None  # reason the case was discarded (counted)
     counts: dict = field(default_factory=dict)  # extra integer counters (e.g. steps checked)
+    margins: dict = field(default_factory=dict)  # oracle -> largest observed/tolerance ratio (held)
 
     def bad(self, oracle, detail, ratio=float("inf")):
         self.violations.append(Violation(oracle, detail, ratio))
@@ -93,7 +94,12 @@ class Result:
             self.bad(oracle, f"{detail} observed={value:.6g} tolerance={tol:.6g}", r)
             return False
         if tol > 0:
-            self.margin = max(self.margin, value / tol)
+            r = value / tol
+            self.margin = max(self.margin, r)
+            if r > self.margins.get(oracle, -1.0):
+                self.margins[oracle] = r
+        else:
+            self.margins.setdefault(oracle, 0.0)
         return True
 
 
@@ -110,6 +116,7 @@ class Stats:
         self.excluded_hits = {}
         self.inconclusive = 0
         self.worst_margin = 0.0
+        self.margins = {}
         self.failure = None
         self.wall = 0.0
 
@@ -127,6 +134,11 @@ class Stats:
         for k, v in res.counts.items():
             self.counts[k] = self.counts.get(k, 0) + int(v)
         self.worst_margin = max(self.worst_margin, res.margin)
+        for k, v in res.margins.items():
+            if v > self.margins.get(k, (-1.0, 0))[0]:
+                self.margins[k] = (v, self.margins.get(k, (0, 0))[1] + 1)
+            else:
+                self.margins[k] = (self.margins[k][0], self.margins[k][1] + 1)
         if keep_sample and res.nontrivial and len(self.samples) < 3:
             self.samples.append(case)
 
@@ -143,6 +155,7 @@ class Stats:
             "excluded_hits": self.excluded_hits,
             "inconclusive": self.inconclusive,
             "worst_margin": self.worst_margin,
+            "margins": {k: list(v) for k, v in self.margins.items()},
             "failure": self.failure,
         }
 
@@ -158,6 +171,9 @@ class Stats:
             self.samples.extend(r["samples"][: 6 - len(self.samples)])
         self.inconclusive += r["inconclusive"]
         self.worst_margin = max(self.worst_margin, r["worst_margin"])
+        for k, (v, n) in r.get("margins", {}).items():
+            old = self.margins.get(k, (-1.0, 0))
+            self.margins[k] = (max(old[0], v), old[1] + n)
         self.wall += r.get("wall_s", 0.0)
 
     def evidence(self, mod, tier, seed, wall, n_viol, extra):
@@ -174,6 +190,7 @@ class Stats:
             "excluded_after_reported_violation": self.excluded_hits,
             "inconclusive_skipped_by_time_guard": self.inconclusive,
             "worst_margin_observed_over_tolerance": self.worst_margin,
+            "oracles_checked": {k: {"cases": n, "worst_observed_over_tolerance": round(v, 6)} for k, (v, n) in sorted(self.margins.items())},
             "exhaustive": False,
         }
         cov.update(extra)
@@ -234,6 +251,16 @@ class _Found(Exception):
     pass
 
 
+def safe_check(pid, check_case, case) -> Result:
+    """check_case, with an exception of the code under test turned into a violation."""
+    try:
+        return check_case(case)
+    except LibRaised as e:
+        res = Result(nontrivial=True)
+        res.bad(f"{pid}/no-exception", f"code under test raised on an admissible input: {e}")
+        return res
+
+
 def run_hypothesis(ctx: WorkerContext, strategy, check_case):
     """Drive check_case with Hypothesis; stop at the first new violation (shrunk when ctx.shrink)."""
     import hypothesis
@@ -260,11 +287,7 @@ def run_hypothesis(ctx: WorkerContext, strategy, check_case):
         if state["generating"] and ctx.timed_out():
             ctx.stats.inconclusive += 1
             return
-        try:
-            res = check_case(case)
-        except LibRaised as e:
-            res = Result(nontrivial=True)
-            res.bad(f"{ctx.pid}/no-exception", f"code under test raised on an admissible input: {e}")
+        res = safe_check(ctx.pid, check_case, case)
         ctx.stats.record(case, res, keep_sample=state["generating"])
         new = ctx.triage(case, res)
         if new:
